@@ -1,17 +1,33 @@
 -------------------------------------- MODULE OperatorDispatch --------------------------------------
-(* C15 -- building the interface stack and asking it who is called (with exclusion lists).
+(* C15 -- building the interface stack, changing the flags of its interfaces, and asking it who is called (with
+   exclusion lists).
 
-   Actions = the public stack mutators of armi/operators/operator.py:
+   The interfaces 1..NI are persistent objects: each carries its own three flags from construction
+   (Interface.__init__: enabled, not forced, not reversed) through every attach / detach / flag change, so that the
+   dispatch law is evaluated after every flag *history*, not only for flags fixed when the interface is added.
+
+   Actions = the public stack and flag mutators of armi/operators/operator.py and armi/interfaces.py:
      Add(i, f, at)       addInterface(interface, index=at|None, reverseAtEOL=f.rev, enabled=f.en, bolForce=f.bf)
-                         at = -1 is `index=None` (append); otherwise list.insert(at, interface)
+                         at = -1 is `index=None` (append); otherwise list.insert(at, interface).  What it does to the
+                         flags of the object (operator.py addInterface, last lines): `if reverseAtEOL: ... = True`,
+                         `if not enabled: interface.enabled(False)`, `interface.bolForce(bolForce)` -- i.e. enabled can only
+                         be switched OFF and reverseAtEOL only ON by addInterface (the defaults leave the object's own
+                         state alone), bolForce is always assigned.  Transcribed as such (interpretation: the statement
+                         speaks about who is called given the flags, not about how addInterface derives them).
      AddDuplicate(i)     addInterface of a name that is already attached: RuntimeError, nothing changes
-     RemoveIface(i)      removeInterface(interfaceName=...) of an attached interface: removed, returns True
+     RemoveIface(i)      removeInterface(interfaceName=...) of an attached interface: removed, returns True; the object
+                         keeps its flags and may be added again
      RemoveAbsent(i)     removeInterface of a name that is not attached: returns False, nothing changes
+     SetEnabled(i, b)    Interface.enabled(b)      (getter/setter in one: enabled() reads, enabled(True|False) writes)
+     SetEnabledBad(i)    Interface.enabled("yes")  a non-bool is refused: ValueError, nothing changes
+     SetBolForce(i, b)   Interface.bolForce(b)     (getter/setter in one: bolForce() reads, bolForce(x) writes)
+     SetReverse(i, b)    interface.reverseAtEOL = b  (plain public attribute)
+   The setters act on attached interfaces and change the value (setting a flag to the value it has is not an edge).
    (function-based replacement of interfaces and dependency resolution are not modelled: the recording interfaces have
     no `function`.)
 
-   Observations in every state: the stack order, the three flags of every attached interface, and for every
-   (event, cycle, exclusion list) the call order  ActiveSeq  of OperatorStack.tla -- compared with what
+   Observations in every state: the stack order, the three flags of every object as its public getters report them, and
+   for every (event, cycle, exclusion list) the call order  ActiveSeq  of OperatorStack.tla -- compared with what
    Operator.getActiveInterfaces answers and with the hooks the public interactAll<Event>(excludedInterfaceNames=...)
    entry point really calls.  Named = the interfaces listed in cs["deferredInterfaceNames"], DCyc = deferredInterfacesCycle.
 *)
@@ -26,13 +42,14 @@ vars == <<stack, flags>>
 InStack(i) == \E k \in 1..Len(stack) : stack[k] = i
 InsAt(s, k, x) == SubSeq(s, 1, k) \o <<x>> \o SubSeq(s, k + 1, Len(s))     \* python list.insert(k, x), 0 <= k <= len
 NoFlags == [en |-> FALSE, bf |-> FALSE, rev |-> FALSE]
+Fresh   == [en |-> TRUE, bf |-> FALSE, rev |-> FALSE]         \* Interface.__init__
 
-Init == stack = <<>> /\ flags = [i \in Ids |-> NoFlags] /\ err = "" /\ act = [n |-> "Init"]
+Init == stack = <<>> /\ flags = [i \in Ids |-> Fresh] /\ err = "" /\ act = [n |-> "Init"]
 
 Add(i, f, at) ==
     /\ ~InStack(i) /\ at \in (-1)..Len(stack)
     /\ stack' = (IF at = -1 THEN Append(stack, i) ELSE InsAt(stack, at, i))
-    /\ flags' = [flags EXCEPT ![i] = f]
+    /\ flags' = [flags EXCEPT ![i] = [en |-> flags[i].en /\ f.en, bf |-> f.bf, rev |-> flags[i].rev \/ f.rev]]
     /\ err' = "" /\ act' = [n |-> "Add", i |-> i, f |-> f, at |-> at]
 AddDuplicate(i) ==
     /\ InStack(i)
@@ -40,16 +57,29 @@ AddDuplicate(i) ==
 RemoveIface(i) ==
     /\ InStack(i)
     /\ stack' = SelectSeq(stack, LAMBDA x : x # i)
-    /\ flags' = [flags EXCEPT ![i] = NoFlags]
+    /\ UNCHANGED flags
     /\ err' = "" /\ act' = [n |-> "Remove", i |-> i]
 RemoveAbsent(i) ==
     /\ ~InStack(i)
     /\ UNCHANGED vars /\ err' = "False" /\ act' = [n |-> "RemoveAbsent", i |-> i]
 
+SetFlag(i, name, b, new) ==
+    /\ InStack(i) /\ flags[i] # new
+    /\ flags' = [flags EXCEPT ![i] = new] /\ UNCHANGED stack
+    /\ err' = "" /\ act' = [n |-> name, i |-> i, b |-> b]
+SetEnabled(i, b)  == SetFlag(i, "SetEnabled", b, [flags[i] EXCEPT !.en = b])
+SetBolForce(i, b) == SetFlag(i, "SetBolForce", b, [flags[i] EXCEPT !.bf = b])
+SetReverse(i, b)  == SetFlag(i, "SetReverse", b, [flags[i] EXCEPT !.rev = b])
+SetEnabledBad(i) ==
+    /\ InStack(i)
+    /\ UNCHANGED vars /\ err' = "ValueError" /\ act' = [n |-> "SetEnabledBad", i |-> i]
+
 Next == \E i \in Ids :
            \/ \E f \in FlagChoices : \E at \in (-1)..NI : Add(i, f, at)
            \/ AddDuplicate(i)
            \/ RemoveIface(i) \/ RemoveAbsent(i)
+           \/ \E b \in BOOLEAN : SetEnabled(i, b) \/ SetBolForce(i, b) \/ SetReverse(i, b)
+           \/ SetEnabledBad(i)
 
 (* ---------- observations ---------- *)
 Ifs == [k \in 1..Len(stack) |-> Iface(flags[stack[k]].en, flags[stack[k]].bf, flags[stack[k]].rev, stack[k] \in Named, FALSE, FALSE)]
@@ -62,12 +92,14 @@ Queries ==
         cq  == {<<"CPL", 0, {}>>}
         all == exq \cup bq \cup cq
     IN SetToSeq({Q(t[1], t[2], t[3]) : t \in all})
-Vars == [stack |-> stack, flags |-> [k \in 1..Len(stack) |-> flags[stack[k]]]]
-Obs  == [stack |-> stack, flags |-> [k \in 1..Len(stack) |-> flags[stack[k]]], q |-> Queries]
+Vars == [stack |-> stack, flags |-> [i \in Ids |-> flags[i]]]            \* flags of every object, attached or not
+Obs  == [stack |-> stack, flags |-> [i \in Ids |-> flags[i]], q |-> Queries]
 
 (* ---------- invariants ---------- *)
 NoDuplicateNames == \A p, q \in 1..Len(stack) : p # q => stack[p] # stack[q]
-DetachedHaveNoFlags == \A i \in Ids : ~InStack(i) => flags[i] = NoFlags
+\* addInterface can switch an object off and flag it for reversal but never the opposite (see Add)
+AddIsOneDirectional == [][\A i \in Ids : (~InStack(i) /\ InStack(i)') =>
+                            (flags'[i].en => flags[i].en) /\ (flags[i].rev => flags'[i].rev)]_<<vars, err, act>>
 DispatchLaw == DispatchLawFor(Ifs, DCyc, 0..NCycQ, {Pos(x) : x \in ExclChoices})
 RefusalsChangeNothing == [][err' # "" => UNCHANGED vars]_<<vars, err, act>>
 =====================================================================================================
